@@ -672,12 +672,15 @@ class Fn:
             if isinstance(node.slice, ast.Slice):
                 return self.subscript_str_slice(node, base, env)
             i = self.nat_index(node.slice, env)
+            self.idx_check(f"(decide (List.length {par(base)} ≤ {i}))", ast.unparse(node))
             return (f"(List.take 1 (List.drop {par(i)} {par(base)}))", "Str")             # s[i]: a string of length 1 (IndexError: totalised to "")
         if tb == "List:Str" and not isinstance(node.slice, ast.Slice):
             i = self.nat_index(node.slice, env)
+            self.idx_check(f"(decide (List.length {par(base)} ≤ {i}))", ast.unparse(node))
             return (f"(List.getD {par(base)} {par(i)} [])", "Str")
         if tb == "Bytes" and self.t.get("bytes_elem") == "Char" and not isinstance(node.slice, ast.Slice):
             i = self.nat_index(node.slice, env)
+            self.idx_check(f"(decide (List.length {par(base)} ≤ {i}))", ast.unparse(node))
             return (f"(List.getD {par(base)} {par(i)} default)", "BChar")     # one byte of a byte string (IndexError: totalised)
         if tb.startswith("List:") and isinstance(node.slice, ast.Slice) and node.slice.upper is None and node.slice.step is None \
                 and node.slice.lower is not None and tb not in ("List:_",) and not tb.startswith("List:Rec:Unpacked"):
@@ -687,9 +690,11 @@ class Fn:
             i = self.nat_index(node.slice, env)
             if "IndexError" in self.t.get("raises", {}):
                 return self.raising(f"({base}[{i}]?)", "Bytes")           # IndexError leaves the function like the mapped exceptions
+            self.idx_check(f"(decide (List.length {par(base)} ≤ {i}))", ast.unparse(node))
             return (f"(List.getD {par(base)} {par(i)} [])", "Bytes")
         if (tb.startswith("List:Rec:") and isinstance(node.slice, ast.UnaryOp) and isinstance(node.slice.op, ast.USub)
                 and isinstance(node.slice.operand, ast.Constant) and node.slice.operand.value == 1):
+            self.idx_check(f"(List.isEmpty {par(base)})", ast.unparse(node))
             return (f"(List.getLastD {par(base)} default)", tb[5:])          # xs[-1] (IndexError on an empty list: totalised)
         if tb == "Bytes":
             if isinstance(node.slice, ast.Slice):
@@ -1278,9 +1283,12 @@ class Fn:
                 raise NotTranslatable(f"{len(sites)} random draws where the binding table knows {len(table)}")
             return table[idx]
         if fname in self.t.get("calls", {}):
+            pmark_ = len(self.pending)
             r_ = self.t["calls"][fname](self, args, kw, env)
-            if self.t.get("mode_divok"):
+            if self.t.get("mode_safe"):
                 self.callee_checks(r_[0])
+                for _v, call_text_ in self.pending[pmark_:]:
+                    self.callee_checks(call_text_)
             return r_
         if fname.endswith(".unpack") and len(args) == 1 and not kw:
             recv = fname[:-7]
@@ -1434,7 +1442,7 @@ class Fn:
 
     # ---------------------------------------------------------------- statements
     def ret(self, e, t):
-        if self.t.get("mode_divok"):
+        if self.t.get("mode_safe"):
             return "true"                  # the function got to a `return`: no ZeroDivisionError on this path
         want = self.t["ret"]
         if hasattr(self, "ret_types"):
@@ -1467,7 +1475,7 @@ class Fn:
             if s.value is None:
                 return pad + self.wrap_ret(self.ret("none", "Opt:_"))
             want = self.t["ret"]
-            if self.t.get("mode_divok"):
+            if self.t.get("mode_safe"):
                 e, t = self.expr(s.value, env)          # evaluated for the divisions inside
                 return pad + self.wrap_ret("true")
             if isinstance(s.value, ast.Tuple) and want.startswith("Opt:Tuple:") and not hasattr(self, "ret_types"):
@@ -1484,7 +1492,7 @@ class Fn:
             out_ = m[exc]
             if callable(out_):
                 out_ = out_(self, s.exc, env)
-            if self.t.get("mode_divok"):
+            if self.t.get("mode_safe"):
                 out_ = "true"
             return pad + self.wrap_ret(out_)
         if isinstance(s, ast.FunctionDef):
@@ -1518,7 +1526,7 @@ class Fn:
                             raise NotTranslatable("unpacking a split outside a function that maps ValueError")
                         tv = f"u{ind}_{len(rest)}"
                         env2 = dict(env)
-                        out = f"{pad}let {tv} := {e}\n{pad}if (!{tv}.2.1) then\n{pad}  {self.wrap_ret(m_['ValueError'])}\n{pad}else\n"
+                        out = f"{pad}let {tv} := {e}\n{pad}if (!{tv}.2.1) then\n{pad}  {self.wrap_ret('true' if self.t.get('mode_safe') else m_['ValueError'])}\n{pad}else\n"
                         for x, proj in zip(tgt.elts, (tv + ".1", tv + ".2.2")):
                             out += f"{pad}  let {self.lean_name(x.id)} := {proj}\n"
                             env2[x.id] = (self.lean_name(x.id), "Bytes")
@@ -1564,6 +1572,7 @@ class Fn:
                 # xs[-1] = v : the last element replaced (IndexError on an empty list: totalised to appending - the code tests first)
                 nm = tgt.value.id
                 le, lt = env[nm]
+                self.idx_check(f"(List.isEmpty {par(le)})", ast.unparse(tgt))
                 ve = self.coerce(val, env, lt[5:])
                 env2 = dict(env)
                 env2[nm] = (self.lean_name(nm), lt)
@@ -1868,7 +1877,7 @@ class Fn:
     def callee_checks(self, text):
         """division-safety mode: a call of another printed function that has a division-safety companion is safe when the companion
         says so for these arguments"""
-        for name in self.t.get("divok_callees", ()):
+        for name in self.t.get("safe_callees", ()):
             key = f"(P0f.Gen.{name} "
             i = text.find(key)
             while i >= 0:
@@ -1885,14 +1894,23 @@ class Fn:
                 if self.no_raise > 0:
                     self.unchecked_divs.append(f"call of {name}")
                 else:
-                    self.pending_checks.append(f"(!(P0f.Gen.{name}_divok {args_}))")
+                    self.pending_checks.append(f"(!(P0f.Gen.{name}_safe {args_}))")
                 i = text.find(key, j)
+
+    def idx_check(self, out_of_range_test, what):
+        """safety mode: a subscript that the translation totalises is only reached in range (IndexError otherwise)"""
+        if not self.t.get("mode_safe") or not self.t.get("safe_index"):
+            return
+        if self.no_raise > len(self.guards):
+            self.unchecked_divs.append(what)
+            return
+        self.pending_checks.append("(" + " && ".join(self.guards + [out_of_range_test]) + ")" if self.guards else out_of_range_test)
 
     def div_check(self, zero_test, tb, b_node_text):
         """division-safety mode: the statement containing this division is only reached with a non-zero divisor; a divisor that is a
         non-zero literal needs no check; a division inside a short-circuit / conditional expression cannot be checked at statement
         level (listed in the header as unchecked)"""
-        if not self.t.get("mode_divok"):
+        if not self.t.get("mode_safe"):
             return
         if tb == "Lit":
             return
@@ -1904,7 +1922,7 @@ class Fn:
     def none_value(self):
         """how an exception of a called function leaves the current function: `none` for Option targets; for `Except` targets the
         error of the innermost enclosing wrapper (`with parsing_error_wrapper(n):`), else the target's default error"""
-        if self.t.get("mode_divok"):
+        if self.t.get("mode_safe"):
             return "true"                  # another exception than ZeroDivisionError left the function
         st = getattr(self, "err_stack", None)
         if st:
@@ -1998,7 +2016,7 @@ class Fn:
         names = [self.lean_name(v) for v in vs]
         tup = "(" + ", ".join(names) + ")" if names else "()"
         exits = self.has_exit([s])
-        if not exits and self.t.get("mode_divok") and any(
+        if not exits and self.t.get("mode_safe") and any(
                 (isinstance(n, ast.BinOp) and isinstance(n.op, (ast.Div, ast.FloorDiv, ast.Mod))) or isinstance(n, ast.Call) for n in ast.walk(s)):
             exits = True        # division-safety mode: a zero divisor inside leaves with `false`
         if not exits and self.t.get("raises") and any(isinstance(n, ast.Call) or (isinstance(n, ast.Subscript) and "IndexError" in self.t["raises"])
@@ -2316,7 +2334,7 @@ class Fn:
         env = dict(self.t["env"])
 
         def end(env2, ind2):
-            if self.t.get("mode_divok"):
+            if self.t.get("mode_safe"):
                 return "  " * ind2 + "true"
             if self.t["ret"].startswith("Opt:") and "end" not in self.t:
                 return "  " * ind2 + "none"
@@ -2429,13 +2447,14 @@ def translate_target(t):
     rty = t.get("lean_ret") or {"Int": "Int", "Bool": "Bool", "QSet": "QSet"}.get(t["ret"]) or t["lean_ret"]
     out = "".join(a for a in fn.aux if a)
     out += f"def {t['lean']} {psig} : {rty} :=\n{body}\n"
-    if t.get("divok") and not t.get("mode_divok"):
+    if t.get("safe") and not t.get("mode_safe"):
         # the division-safety companion: the same control skeleton, `true` at every exit, `false` where a divisor is zero
-        t2 = dict(t, lean=t["lean"] + "_divok", ret="Bool", lean_ret="Bool", mode_divok=True)
+        t2 = dict(t, lean=t["lean"] + "_safe", ret="Bool", lean_ret="Bool", mode_safe=True)
         t2.pop("end", None)
         fn2 = Fn(t2, fdef, vars(mod))
         body2 = fn2.translate()
-        out += "\n/-- division safety of the function above: `false` iff some division it reaches has a zero divisor (ZeroDivisionError)" \
+        out += "\n/-- safety of the function above: `false` iff it reaches a division with a zero divisor (ZeroDivisionError)" \
+               + (" or a subscript out of range (IndexError)" if t.get("safe_index") else "") \
                + (";\n    NOT covered (inside a short-circuit / conditional expression): " + "; ".join(sorted(set(fn2.unchecked_divs))) if fn2.unchecked_divs else "") + " -/\n"
         out += "".join(a for a in fn2.aux if a)
         out += f"def {t2['lean']} {psig} : Bool :=\n{body2}\n"
